@@ -959,8 +959,8 @@ func compareLogicXEQ(left r.Element, right r.Element) (bool, error) {
 			if len(vla) != len(vra) {
 				return false, nil
 			}
-			// cmp each item
-			for idx := range vla {
+			// cmp each item (in key order, so that the outcome never depends on map iteration)
+			for _, idx := range vl.GetKeyOrder() {
 				// ensure the key exists on vr
 				vrr, ok := vra[idx]
 				if !ok {
@@ -970,7 +970,10 @@ func compareLogicXEQ(left r.Element, right r.Element) (bool, error) {
 				if err != nil {
 					return false, err
 				}
-				return cmpVal, nil
+				// every key has to match, whatever order the map yields them in
+				if !cmpVal {
+					return false, nil
+				}
 			}
 			return true, nil
 		}
